@@ -99,13 +99,25 @@ def program(draw, depth):
                     None, draw(st.booleans()), None]
             inner = [blk_]
         body = body + inner + [["def", "tail", 1, False]]
+    if draw(st.integers(0, 4)) == 0:
+        # two blocks with different compact names directly after one another, the first closed by the second
+        p1, p2 = draw(st.sampled_from([("ga", "gb"), ("gb", "pc"), ("pc", "ga"), (None, "ga"), ("gb", None)]))
+        mk = lambda pf_, nm: ["block", [{"cond": {"lit": draw(st.booleans())}, "items": [["def", nm, 1, False]]}],
+                              ([["def", nm, 2, False]] if draw(st.booleans()) else None), False, pf_]
+        body = body + [mk(p1, "sa"), mk(p2, "sb"), ["def", "safter", 3, False]]
+    if draw(st.integers(0, 5)) == 0:
+        # further @case clauses written after the @else of a block: @else catches everything, they never take effect
+        blk_ = ["block", [{"cond": {"lit": draw(st.booleans())}, "items": [["def", "pe1", 1, False]]}],
+                [["def", "pe2", 2, False]], draw(st.booleans()), None,
+                [{"cond": {"lit": draw(st.booleans())}, "items": [["def", "pe3", 3, False]]}]]
+        body = body + [blk_, ["def", "peafter", 4, False]]
     stray = draw(st.sampled_from([None] * 9 + ["else_end", "end_end", "else_start", "end_start", "else_after_closed",
                                                "else_in_clause", "else_in_group", "else_deeper_after_node",
                                                "else_in_unselected_clause", "second_end_in_unselected_clause"]))
     # blank and comment lines are legal anywhere and must not end (or keep open) a clause
     fill = draw(st.one_of(st.none(), st.lists(st.sampled_from([0, 0, 0, 1, 2, 3]), min_size=8, max_size=8)))
     return {"base": base, "items": body, "widths": draw(st.lists(st.integers(1, 4), min_size=6, max_size=6)), "stray": stray,
-            "fill": fill}
+            "fill": fill, "history": draw(st.sampled_from([None, None, None, "after_failed_parse", "on_env_with_open_block"]))}
 
 
 def strategies(tier):
@@ -121,7 +133,12 @@ def cond_text(c):
 
 
 def _block(it):
-    return it if len(it) == 5 else list(it) + [None]
+    return list(it[:5]) if len(it) >= 5 else list(it) + [None]
+
+
+def _post(it):
+    """clauses written after the @else of the block (never selected)"""
+    return it[5] if len(it) >= 6 else []
 
 
 def _explicit_end(its, idx):
@@ -174,6 +191,9 @@ def render_items(its, level, widths, out, prefix=""):
             if els is not None:
                 out.append(f"{ind}{dot}@else")
                 render_items(els, level + 1, widths, out, prefix + dot)
+            for c in _post(it):
+                out.append(f"{ind}{dot}@case {cond_text(c['cond'])}")
+                render_items(c["items"], level + 1, widths, out, prefix + dot)
             if _explicit_end(its, idx):
                 out.append(f"{ind}{dot}@end")
 
@@ -232,7 +252,7 @@ def interpret(case):
     const = {}
     info = {"allfalse_indent_then_node": False, "nested_in_unselected": False, "max_clauses": 0,
             "compact_names": False, "sibling_blocks_by_indent": False, "reference_in_unselected": False,
-            "import_from_second_file": False}
+            "import_from_second_file": False, "clauses_after_else": False}
     for n, v in zip(BASE, case["base"]):
         model[n] = v
         const[n] = False
@@ -287,6 +307,9 @@ def interpret(case):
                     walk(c["items"], inner, active and chosen == i)
                 if els is not None:
                     walk(els, inner, active and chosen is None)
+                for c in _post(it):
+                    walk(c["items"], inner, False)
+                    info["clauses_after_else"] = True
                 nxt = its[idx + 1] if idx + 1 < len(its) else None
                 explicit = _explicit_end(its, idx)
                 if not explicit and nxt is not None and nxt[0] == "block":
@@ -372,7 +395,8 @@ def _normalise(its, in_group, counter=None):
             pf = _block(it)[4]
             ing = in_group or bool(pf)
             out.append(["block", [{"cond": c["cond"], "items": _normalise(c["items"], ing, counter)} for c in it[1]],
-                        None if it[2] is None else _normalise(it[2], ing, counter), it[3], pf])
+                        None if it[2] is None else _normalise(it[2], ing, counter), it[3], pf] +
+                       ([[{"cond": c["cond"], "items": _normalise(c["items"], ing, counter)} for c in _post(it)]] if _post(it) else []))
         else:
             out.append(it)
     return out
@@ -395,12 +419,44 @@ def _check(case, v):
             f.write("auxa int = 5\nauxb int = 6\n")
         run_text = text.replace("@AUXPATH@", os.path.join(tmp, "aux.dip"))
         text = text.replace("@AUXPATH@", "aux.dip   # holds: auxa int = 5 / auxb int = 6")
+    hist = case.get("history")
+    pre_nodes = {}
     try:
         try:
-            with DIP(name=f"c15_{next(_uid)}") as p:
-                p.add_string(run_text)
-                env = p.parse()
+            if hist == "after_failed_parse":
+                # the same parser object was first given a text with a misplaced @else inside an open block (refused)
+                with DIP(name=f"c15_{next(_uid)}") as p:
+                    p.add_string("@case true\n  zz int = 1\n  @else")
+                    try:
+                        p.parse()
+                    except Exception:
+                        pass
+                    p.add_string(run_text)
+                    env = p.parse()
+                text = "# (after a refused text on the same parser object)\n" + text
+            elif hist == "on_env_with_open_block":
+                # parsed on top of an environment that another parser used before, for a text that ended inside an
+                # open block: that parser worked on its own copy
+                with DIP(name=f"c15_{next(_uid)}") as p0:
+                    p0.add_string("pre int = 1")
+                    env0 = p0.parse()
+                with DIP(env0, name=f"c15_{next(_uid)}") as p1:
+                    p1.add_string("@case false\n  other int = 2")
+                    p1.parse()
+                pre_nodes = {"pre": 1}
+                with DIP(env0, name=f"c15_{next(_uid)}") as p:
+                    p.add_string(run_text)
+                    env = p.parse()
+                text = "# (on an environment another parser had used for a text ending inside an open block)\n" + text
+            else:
+                with DIP(name=f"c15_{next(_uid)}") as p:
+                    p.add_string(run_text)
+                    env = p.parse()
             data = env.data()
+            for k_ in pre_nodes:
+                if data.get(k_) != pre_nodes[k_]:
+                    return v.fail("effect", f"base node {k_} = {data.get(k_)!r} for:\n{text}")
+                data.pop(k_)
             nodes = env.data(Format.NODE)
         finally:
             if tmp:
@@ -425,10 +481,13 @@ def _check(case, v):
             return v.fail("property-effect", f"{k}.constant = {nodes[k].constant}, expected {c} for:\n{text}")
     v.nt(info["allfalse_indent_then_node"] or info["nested_in_unselected"] or info["max_clauses"] >= 3)
     v.label("program")
+    if case.get("history"):
+        v.label(case["history"])
     if case.get("fill") and any(case["fill"]):
         v.label("blank_or_comment_lines")
     for key in ("allfalse_indent_then_node", "nested_in_unselected", "compact_names", "sibling_blocks_by_indent",
-                "reference_in_unselected", "import_from_second_file"):
+                "reference_in_unselected", "import_from_second_file",
+                "clauses_after_else"):
         if info[key]:
             v.label(key)
     if info["max_clauses"] >= 3:
